@@ -52,6 +52,7 @@ type c13Input struct {
 	Server    map[string]c13SV `json:"server,omitempty"`
 	Probe     []string         `json:"probe,omitempty"`
 	Restarts  bool             `json:"restarts,omitempty"` // restart + FileClient after every cache change
+	File      bool             `json:"file,omitempty"`     // the cache is a real setec.FileCache (recorded by a wrapper)
 	Ops       []c13Op          `json:"ops"`
 	Note      string           `json:"note,omitempty"`
 	// trace / inject
@@ -131,6 +132,9 @@ type c13Cache struct {
 	writes    [][]byte
 	failWrite bool
 	failRead  bool
+	backing   setec.Cache // if set: a real setec.FileCache holding the content
+	path      string
+	badMode   string // set when the file's permissions are not 0600 after a write
 }
 
 func (c *c13Cache) Write(d []byte) error {
@@ -139,6 +143,15 @@ func (c *c13Cache) Write(d []byte) error {
 	c.writes = append(c.writes, bytes.Clone(d))
 	if c.failWrite {
 		return errors.New("cache write failed")
+	}
+	if c.backing != nil {
+		if err := c.backing.Write(d); err != nil {
+			return err
+		}
+		if st, err := os.Stat(c.path); err != nil || st.Mode().Perm() != 0600 {
+			c.badMode = fmt.Sprintf("cache file after Write: %v %v", st, err)
+		}
+		return nil
 	}
 	c.data = bytes.Clone(d)
 	return nil
@@ -149,6 +162,9 @@ func (c *c13Cache) Read() ([]byte, error) {
 	defer c.mu.Unlock()
 	if c.failRead {
 		return nil, errors.New("cache read failed")
+	}
+	if c.backing != nil {
+		return c.backing.Read()
 	}
 	return bytes.Clone(c.data), nil
 }
@@ -164,6 +180,10 @@ func (c *c13Cache) take() [][]byte {
 func (c *c13Cache) content() []byte {
 	c.mu.Lock()
 	defer c.mu.Unlock()
+	if c.backing != nil {
+		bs, _ := os.ReadFile(c.path)
+		return bs
+	}
 	return bytes.Clone(c.data)
 }
 
@@ -322,6 +342,17 @@ type c13Run struct {
 
 func (r *c13Run) timeNow() time.Time { return time.Unix(r.now, 0) }
 
+func (r *c13Run) restartCache(content []byte) setec.Cache {
+	if r.cache.backing != nil {
+		fcache, err := setec.NewFileCache(r.cache.path)
+		if err != nil {
+			fatal("C13: NewFileCache: %v", err)
+		}
+		return fcache
+	}
+	return setec.NewMemCache(string(content))
+}
+
 // written collects the payload(s) of the Cache.Write calls since the last call
 func (r *c13Run) written(o *c13SObs) {
 	ws := r.cache.take()
@@ -361,7 +392,7 @@ func (r *c13Run) restart(o *c13SObs) {
 		ctx, cancel := context.WithTimeout(context.Background(), 300*time.Millisecond)
 		defer cancel()
 		s2, err := setec.NewStore(ctx, setec.StoreConfig{
-			Client: dead, Secrets: slices.Clone(r.in.Names), AllowLookup: true, Cache: setec.NewMemCache(string(content)),
+			Client: dead, Secrets: slices.Clone(r.in.Names), AllowLookup: true, Cache: r.restartCache(content),
 			PollInterval: -1, TimeNow: r.timeNow, Logf: func(string, ...any) {},
 		})
 		rs.NReq = len(dead.take())
@@ -396,7 +427,9 @@ func (r *c13Run) restart(o *c13SObs) {
 	// the file client on the same bytes
 	fc := &c13FC{}
 	path := filepath.Join(r.tmpdir, "fc.json")
-	if err := os.WriteFile(path, content, 0600); err != nil {
+	if r.cache.backing != nil {
+		path = r.cache.path // the very file the store's FileCache wrote
+	} else if err := os.WriteFile(path, content, 0600); err != nil {
 		fatal("C13: %v", err)
 	}
 	func() {
@@ -452,6 +485,23 @@ func c13RunHist(in c13Input, workdir string) (*c13Case, string) {
 	}
 	r.cli = &c13Client{srv: srv}
 	r.cache = &c13Cache{data: bytes.Clone(in.Cache), failRead: in.ReadFail, failWrite: in.InitWFail}
+	if in.File {
+		// a real FileCache in a fresh directory; an initial content is put there as a file
+		dir := filepath.Join(workdir, "fcache")
+		os.RemoveAll(dir)
+		r.cache.path = filepath.Join(dir, "sub", "cache.json")
+		fcache, err := setec.NewFileCache(r.cache.path)
+		if err != nil {
+			fatal("C13: NewFileCache: %v", err)
+		}
+		if len(in.Cache) > 0 {
+			if err := os.WriteFile(r.cache.path, in.Cache, 0600); err != nil {
+				fatal("C13: %v", err)
+			}
+		}
+		r.cache.backing = fcache
+		defer os.RemoveAll(dir)
+	}
 	c.ConsWOK = !in.InitWFail
 	c.RFail = in.ReadFail
 	switch {
@@ -606,6 +656,9 @@ func c13RunHist(in c13Input, workdir string) (*c13Case, string) {
 		if r.panicky != "" {
 			break
 		}
+	}
+	if r.panicky == "" && r.cache.badMode != "" {
+		r.panicky = r.cache.badMode
 	}
 	return c, r.panicky
 }
